@@ -110,6 +110,14 @@ Theorem C17_npz_keys_roundtrip :
 Proof. exact npz_keys_roundtrip. Qed.
 Print Assumptions C17_npz_keys_roundtrip.
 
+(* dict_roundtrip (to_dict / from_dict, hence JSON): for pairwise distinct boundary names every boundary comes back
+   with its facet list and with exactly its orientation flags (none for unoriented ones) *)
+Theorem C17_dict_roundtrip :
+  forall (b : bdict), NoDup (map fst b) ->
+    gen_dict_load (gen_dict_boundaries b) (gen_dict_orientations b) = b.
+Proof. exact dict_roundtrip_model. Qed.
+Print Assumptions C17_dict_roundtrip.
+
 (* non-vacuity: two triangles (0,1,2), (1,2,3); facets 0={0,1} 1={0,2} 2={1,2} 3={1,3} 4={2,3}.  The tag
    [4; 2; 1] with flags [0; 1; 0] (an interior facet owned by its SECOND cell, given unsorted) satisfies the
    hypotheses and round-trips through the regenerated code *)
@@ -126,3 +134,14 @@ Proof.
   split; vm_compute; reflexivity.
 Qed.
 Print Assumptions C17_instance.
+
+Import String.   (* string literals; after everything that uses List.length *)
+(* cell-data key scheme: the keys written by _encode_cell_data are parsed by name.split(':') into the marker, the
+   kind and the tag name, for every tag name without ':' *)
+Theorem C17_key_scheme_roundtrip :
+  forall (name : String.string), has_char colon name = false ->
+    parse_key (String.append gen_key_subdomain name) = ("skfem"%string, "s"%string, name) /\
+    parse_key (String.append gen_key_boundary name) = ("skfem"%string, "b"%string, name).
+Proof. exact key_scheme_roundtrip. Qed.
+Print Assumptions C17_key_scheme_roundtrip.
+
